@@ -5,6 +5,8 @@
 //! `harness record <what>` drives the real code and records traces for TLC to validate
 mod build;
 mod cfr;
+mod cli;
+mod clirun;
 mod edit;
 mod lattice;
 mod monitor;
@@ -51,6 +53,8 @@ fn main() {
         ["replay", "lattice"] => lattice::replay(&args),
         ["child", "lattice"] => lattice::child(&args),
         ["gen", "xform"] => xform::gen(&args),
+        ["record", "cli"] => clirun::record(&args),
+        ["replay", "cli"] => clirun::replay(&args),
         ["replay", "sampler"] => sample::replay_sampler(&args),
         ["record", "sample"] => sample::record(&args),
         ["replay", "xform"] => xform::replay(&args),
